@@ -68,8 +68,17 @@ Fixpoint emit_all (l : opts) (acc : bytes) : res bytes :=
 (* optionsReplyParametersList appended to the caller's order: mask, static route, router *)
 Definition reply_params : list N := [1; 33; 3].
 
+(* repo commit 94e2701: the subnet mask (1) is inserted in front of the first router code (3)
+   of the caller's order (RFC 2132 3.3: the mask MUST precede the router option) *)
+Fixpoint insert_mask (order : list N) : list N :=
+  match order with
+  | [] => []
+  | c :: r => if c =? 3 then 1 :: c :: r else c :: insert_mask r
+  end.
+Definition effective_order (order : list N) : list N := insert_mask order ++ reply_params.
+
 Definition append_options_bytes (o : opts) (order perm : list N) : res bytes :=
-  ('(rest, acc) <- emit_ordered (order ++ reply_params) o [] ;;
+  ('(rest, acc) <- emit_ordered (effective_order order) o [] ;;
    emit_all (tail_order perm rest) acc)%res.
 
 (* ---------------------------------------------------------------- *)
